@@ -34,6 +34,7 @@ NONTRIVIAL = {
     "c09": lambda i: isinstance(i, dict) and sum(len(f.get("msgs") or []) for f in i.get("files", [])) > 0,
     "c07": lambda i: isinstance(i, dict) and len(i.get("walks") or []) > 1,
     "c05": lambda i: isinstance(i, dict) and len(i.get("queries") or []) > 1,
+    "c06": lambda i: isinstance(i, dict) and len(i.get("ops") or []) > 1,
     "c15": lambda i: isinstance(i, dict) and len(i.get("name") or []) > 1,
 }
 
@@ -171,5 +172,13 @@ PROPS = {
         "rule": "ALL digraphs with self loops on 1-3 message nodes (stride-sampled on 4 in the thorough tier) embedded in valid bidirectionally built requests (edge = singular / repeated / map-value message field, nodes partly nested under holders sharing the simple name 'Item', an enum used by 1-2 nodes) x ALL orders of asking the nodes (dependents/dependencies interleaved or phased, the enum asked at every position); seeded random graphs up to 12 nodes with long cycles and random query histories with repetitions; the general world generator in bidirectional mode with up to 40 shuffled queries; non-trivial = at least 2 queries",
         "level_text": "THEOREMS PENDING (level exploration until proved): executable Lean model of assignDependent's edges, the visited-set traversal and the per-entity caches compared with the real accessors under every generated query history; Phi_C05 = every answer is exactly the reachability closure computed by saturation from the descriptor-level edge relation, evaluated on every observed answer. Planned theorem: dfs = reachability for every graph and every cache history (core lemma already proved in a probe).",
         "level_note": "Trusted: protodesc validity; descriptor pointer identity; Go map iteration order (answers compared as sets, duplicates flagged).",
+    },
+    "C06": {
+        "engines": [("c06", "main")],
+        "lean": ["PgsVerif.Props.C06"],
+        "category": "exploration",
+        "rule": "curated + seeded random protodesc-valid worlds built bidirectionally; TWO ASTs from the same request: A observed once per (entity, accessor) in canonical order (first-call oracle), B driven by a random history of 20-100 calls with repetitions over 31 (kind, accessor) pairs (file: imports/transitive/dependents/unused/messages/allMessages/enums/allEnums/services/exts/walk; message: 16 accessors incl. dependencies/dependents/imports/walk; enum: values/dependents; service: methods/imports/walk), biased towards the cached / derived ones; every result compared with A's and with the model; non-trivial = at least 2 ops",
+        "level_text": "THEOREMS PENDING (level exploration until proved) and PARTIAL by nature: the model's only mutable state are the lazily filled caches; Go slice aliasing (listings built by append on internal slices) has no counterpart in a functional model and is covered by the correspondence run only. Phi_C06 = every result equals the first-call result on a fresh AST of the same request and what the request declares.",
+        "level_note": "Trusted: protodesc validity; descriptor pointer identity; derived relations compared as sorted sequences (a duplicate stays visible).",
     },
 }
